@@ -481,4 +481,16 @@ theorem mat_2x2_inv_mod_sound (mn : Nat) (hm : mn ≠ 0) (a b c d : Int) (inv : 
   inv2x2Mod_sound mn hm a b c d inv h
 example : inv2x2Mod [[1, 2], [3, 5]] 8 = .ok [[3, 2], [3, 7]] ∧ inv2x2Mod [[1, 2], [2, 4]] 8 = .fail := by decide
 
+/-! ## 9. Kernel modulo 2^e (Howell form): proved-sound certificate checker
+
+`ibz_4x4_right_ker_mod_power_of_2` is not modelled; each vector it returns during a check run is passed to
+`kerPow2Check` (driver op `chkker2e`).  Soundness of the checker, for every matrix, exponent and vector: -/
+theorem ker_pow2_check_sound (mat : Mat) (e : Nat) (v : List Int) (h : kerPow2Check mat e v = true) :
+    (∃ x ∈ v, x % 2 = 1) ∧ (∀ row ∈ mat, row.length = v.length ∧ dotInt row v % 2 ^ e = 0) := by
+  simp only [kerPow2Check, Bool.and_eq_true, List.all_eq_true, List.any_eq_true, beq_iff_eq] at h
+  exact ⟨h.1.2, fun row hr => ⟨h.1.1 row hr, h.2 row hr⟩⟩
+/-- `dotInt` is the usual dot product -/
+theorem dotInt_cons (a b : Int) (r w : List Int) : dotInt (a :: r) (b :: w) = a * b + dotInt r w := rfl
+example : kerPow2Check [[1, 2, 0, 0], [0, 0, 4, 4], [2, 4, 0, 0], [0, 0, 0, 8]] 3 [2, 7, 1, 1] = true := by decide
+
 end SqiProps.C17
